@@ -3,7 +3,10 @@ import copy
 from .. import gen
 from . import seqprop
 
-GEN = ["JsonUtilGen.v"]
+GEN = ['JsonUtilGen.v', 'Decisions.v']
+DECISIONS = ['Cache._complex_operation_to_json', 'Cache._operation_from_json', 'Cache._operation_to_json', 'Cache._operations_from_json', 'Cache._simple_operation_to_json', 'Cache.read_immutable', 'Cache.write']
+SITES = False
+ORDER = False
 VALUES = [None, True, False, 0, -1, 2 ** 63, 10 ** 30, 1.5, -0.0, float("inf"), "", "é", "\U0001f600", "a b", "q'",
           [], {}, [1, [2, [3]]], {"b": 1, "a": {"d": [1.0, None], "c": "x"}}, [{"k": []}], {"": 0}, [[], {}], "line\nbreak", "é́"]
 FNAMES = ["plain", "with space", "é", ".hidden", "..dots", "a.b.c", "trailing.", "üñí", "-dash", "~tilde", "#hash", "%25"]
